@@ -39,8 +39,13 @@ claim("C08",
       "AllocateJob places only behind IsJobOverQueueCapacityFn(..).IsSchedulable, preempt searches only behind the non-preemptible quota gate, and a node is accepted only behind the per-node gate; proportion registers the three gates and each runs limit + non-preemptible-quota checks (first failure decides); each check compares every ancestor and all three resources, answering 'over' exactly for limit < allocated+request / deserved < non-preemptible+request; allocate/deallocate handlers update Allocated for every ancestor and AllocatedNotPreemptible exactly for non-preemptible jobs; queue memory is scaled by the API unit 10^6. The numeric running sums are not decided.",
       NOTE)
 
+claim("C07",
+      "value-fact summaries and per-path return facts of the reclaim validators and strategies, guard dominance and provenance in the victim loop, init-once guard of the remaining-share map, hierarchy-walk detection, must-definition of the per-attempt snapshot, float-aware (NaN-preserving) comparison facts for the saturation test and the multiplier clamp, field coverage of Clone",
+      "A reclaim scenario is accepted only if each victim chunk fits a strategy evaluated on the remaining share of the queue at the divergence level (initialised once, reduced for every ancestor) and the boundary walk holds; MaintainFairShare / GuaranteeDeservedQuota carry their defining facts; CanReclaimResources (fair share, deserved quota for non-preemptible, request added first) dominates every reclaim attempt and is repeated at every ancestor; the saturation test refuses on ratio>1 ∧ siblingFair>0 ∧ ratio·m ≥ sibling (equality refuses) with m clamped to ≥1 and NaN excluded; the per-attempt snapshot is rebuilt on every attempt from clones that copy every field. Numeric truth of the shares is not decided.",
+      NOTE)
+
 NA = {
     "C15": "quantifies over infinite executions of a closed system (lasso freedom); no static shape of the code settles it. Its three guards (strict saturation comparison with multiplier >= 1, strictly-lower priority for preempt, consolidation only when all victims are re-placed) are decided as clauses of C07 and C06.",
 }
-for _p in ["C04","C05","C07","C09","C10","C11","C12","C16","C17","C18","C19","C20"]:
+for _p in ["C04","C05","C09","C10","C11","C12","C16","C17","C18","C19","C20"]:
     NA.setdefault(_p, "check under construction in this session (see DESIGN.md §4 for the planned static obligations); not claimed until the check exists")
